@@ -254,12 +254,15 @@ class ListVal(Val):
         for it in self.items:
             if it[0] == 'item':
                 out.append(('item', it[1].key()))
+            elif it[0] == 'taint':
+                out.append(('taint', it[1]))
             else:
                 out.append(('fold', it[1], tuple(g.key() for g in it[2]), it[3].key()))
         return ('list', self.base.key() if self.base else None) + tuple(out)
 
     def show(self):
-        return '[' + ', '.join(('%s' % it[1].show()) if it[0] == 'item' else 'fold(%s: %s)' % (it[1], it[3].show())
+        return '[' + ', '.join(('%s' % it[1].show()) if it[0] == 'item' else ('<%s>' % it[1] if it[0] == 'taint' else
+                                                                                 'fold(%s: %s)' % (it[1], it[3].show()))
                                for it in self.items) + ']' + (('++' + self.base.show()) if self.base else '')
 
 
